@@ -52,6 +52,8 @@ def _data(rcp):
         x[rng.choice(n, int(rcp["zeros"]), replace=False)] = 0.0
     if not rcp.get("allow_zero") and not rcp.get("zeros"):
         x = np.where(x <= 0, 10.0 ** (-int(rcp["round"])) if rcp.get("round") is not None else 1e-6, x)
+    if rcp.get("as_int"):
+        x = np.maximum(np.round(x), 1).astype(np.int64)  # whole units stored in an integer-typed array
     return x
 
 
@@ -278,6 +280,7 @@ def _data_recipes(rng, thorough):
                           "data_seed": seed(), "zeros": int(rng.integers(1, 6))}),
             ("weibull+ties", {"source": "weibull", "alpha": float(rng.uniform(1.5, 4)), "beta": float(rng.uniform(1.2, 2.5)), "n": max(n(), 100), "data_seed": seed(), "round": 1,
                               "allow_zero": False}),
+            ("gamma+ties+int", {"source": "gamma", "shape": float(rng.uniform(2.5, 5)), "scale": float(rng.uniform(3, 6)), "n": max(n(), 150), "data_seed": seed(), "as_int": True}),
             ("lognormal+ties+zeros", {"source": "lognormal", "mu": float(rng.uniform(-0.3, 0.5)), "sigma": float(rng.uniform(0.5, 0.9)), "n": max(n(), 200), "data_seed": seed(),
                                       "round": 1, "allow_zero": True, "zeros": 2}),
         ]
